@@ -29,23 +29,36 @@ def _main_check(ctx: Ctx) -> None:
     ctx.analysed(fi)
     ctx.floor("writer branches emitting a mido message", len(wt), 5)
     # --- ACC2
-    buf = None
+    # the delta buffer by role: the variable the emitted mido messages take their `time=` from
+    buf = aug = None
+    names = []
+    for c_ in ast.walk(loop):
+        if isinstance(c_, ast.Call) and src(c_.func) in ("mido.Message", "mido.MetaMessage"):
+            t_ = kwarg(c_, "time")
+            names += [x.id for x in ast.walk(t_) if isinstance(x, ast.Name) and x.id not in ("int", "round", "float", "max", "min", "abs")] if t_ is not None else []
+    if names:
+        buf = max(set(names), key=names.count)
     for n in loop.body:
         for x in ast.walk(n):
             if isinstance(x, ast.AugAssign) and isinstance(x.op, ast.Add) and isinstance(x.target, ast.Name) and isinstance(x.value, ast.Attribute) \
-                    and x.value.attr == "time" and isinstance(x.value.value, ast.Name) and x.value.value.id == m:
+                    and x.value.attr == "time" and isinstance(x.value.value, ast.Name) and x.value.value.id == m and (buf is None or x.target.id == buf):
                 buf = x.target.id
                 aug = x
     if buf is None:
         raise AnalysisError("MidiTrack.to_mido_track: delta-time buffer not found")
-    in_dispatch = any(isinstance(a, ast.If) and "message_type" in src(a.test) for a in ancestors(aug))
-    ctx.check(not in_dispatch, "ACC2", f"{fi.qualname}: `{buf} += {m}.time` runs for every message kind", function=fi.qualname,
-              construct="delta buffer accumulation depends on the message kind", message="", file=fi.file, node=aug)
+    if aug is None:
+        ctx.violation("ACC2", f"{fi.qualname}: every message adds its time to `{buf}`", function=fi.qualname,
+                      construct="the time of a message is never added to the delta buffer",
+                      message=f"no `{buf} += {m}.time` in the loop: every event is written with delta 0 and all rests are lost", file=fi.file, node=loop)
+    else:
+        in_dispatch = any(isinstance(a, ast.If) and "message_type" in src(a.test) for a in ancestors(aug))
+        ctx.check(not in_dispatch, "ACC2", f"{fi.qualname}: `{buf} += {m}.time` runs for every message kind", function=fi.qualname,
+                  construct="delta buffer accumulation depends on the message kind", message="", file=fi.file, node=aug)
     inits = [s_ for s_ in fi.node.body if s_.lineno < loop.lineno and isinstance(s_, ast.Assign) and any(isinstance(t_, ast.Name) and t_.id == buf for t_ in s_.targets)]
     ctx.check(len(inits) == 1 and isinstance(inits[0].value, ast.Constant) and inits[0].value.value == 0 and not isinstance(inits[0].value.value, bool), "ACC2",
               f"{fi.qualname}: `{buf}` starts at 0", function=fi.qualname, construct="delta buffer does not start at 0",
               message=f"{[short(x) for x in inits]}: the first event of the track is shifted", file=fi.file, node=inits[0] if inits else loop)
-    g = next((a for a in ancestors(aug) if isinstance(a, ast.If)), None)
+    g = next((a for a in ancestors(aug) if isinstance(a, ast.If)), None) if aug is not None else None
     if g is not None:
         from .c07 import _nnf
         leaves = list(_nnf(g.test))
